@@ -4,3 +4,5 @@ import OsyrisProofs.C14
 #print axioms Osyris.C14.C14_columns_independent
 #print axioms Osyris.C14.C14_zero_particles
 #print axioms Osyris.Readers.readAt_aligned
+#print axioms Osyris.Readers.var_loop_reads_columns
+#print axioms Osyris.Readers.expReads_offs
